@@ -7,6 +7,8 @@ import (
 
 var errInvalidClientKeyLength = errors.New("Invalid client public key size")
 
+var errInvalidEncryptedDataLength = errors.New("Encrypted data is shorter than an auth tag")
+
 var errInvalidPairMethod = func(m PairMethodType) error {
 	return fmt.Errorf("Invalid pairing method %v\n", m)
 }
